@@ -21,6 +21,7 @@ import EPV.Gen.BlakeModKM
 import EPV.Spec.Blake
 import EPV.Lemmas.Blake
 import EPV.Tactics
+import EPV.Lemmas.Bridge.DetonTactics
 
 set_option linter.all false
 
@@ -30,6 +31,15 @@ namespace EPV.Blake
 
 /-- clear denominators; the side goals `d ≠ 0` are discharged from sign facts in the context -/
 macro "fsimp" : tactic => `(tactic| field_simp (disch := first | assumption | linarith | positivity))
+
+/-- `0 < X` (resp. `X ≠ 0`) for a generated expression `X`, through its documented closed form `c`: `c` is positive
+by `positivity` and `c = X` is a field identity — whatever `X` looks like -/
+syntax "epv_deton_pos_via " term : tactic
+macro_rules
+  | `(tactic| epv_deton_pos_via $c) =>
+    `(tactic| first
+        | (refine lt_of_lt_of_eq (b := $c) ?_ ?_ <;> first | positivity | ring1 | (fsimp <;> ring1))
+        | (refine ne_of_gt (lt_of_lt_of_eq (b := $c) ?_ ?_) <;> first | positivity | ring1 | (fsimp <;> ring1)))
 
 theorem modLG_ok (p : BlakeModLG.P) (h : BlakeModLG.outcome p = .ok) :
     IsoMaterial (BlakeModLG.lame_mod p) (BlakeModLG.shear_mod p) (BlakeModLG.youngs_mod p) (BlakeModLG.poisson_ratio p) (BlakeModLG.bulk_mod p) (BlakeModLG.long_mod p)
@@ -52,10 +62,9 @@ theorem modLE_ok (p : BlakeModLE.P) (h : BlakeModLE.outcome p = .ok) :
     simp only [epv_cond] at *
     simp only [epv_leaf]
     simp only [not_le, not_lt] at *
-    generalize hR : (p.youngs_mod ^ (2 : ℕ) + 9 * p.lame_mod ^ (2 : ℕ) + 2 * p.youngs_mod * p.lame_mod) ^ ((1 : ℝ) / 2) = R at *
-    have hR0 : 0 ≤ R := hR ▸ rpow_half_nonneg _
-    have hR2 : R * R = p.youngs_mod ^ (2 : ℕ) + 9 * p.lame_mod ^ (2 : ℕ) + 2 * p.youngs_mod * p.lame_mod :=
-      hR ▸ rpow_half_mul_self (by nlinarith [sq_nonneg (p.youngs_mod + p.lame_mod), sq_nonneg p.lame_mod])
+    have hsq1 := sq_nonneg (p.youngs_mod + p.lame_mod)
+    have hsq2 := sq_nonneg p.lame_mod
+    epv_deton_rpow_half_gen R hR0 hR2
     have h1 : 0 < p.youngs_mod + p.lame_mod + R := by linarith
     refine ⟨IsoMaterial.of_mul ?_ ?_ ?_ ?_ ?_ ?_, ?_, ?_⟩ <;> first | trivial | assumption | linarith | ring1 | (fsimp <;> ring1) | linear_combination (-1 / 8 : ℝ) * hR2)
 
@@ -210,20 +219,10 @@ theorem modENu_ok (p : BlakeModENu.P) (h : BlakeModENu.outcome p = .ok) :
     have h1 : 1 - 2 * p.poisson_ratio ≠ 0 := ne_of_gt h1p
     have hn : 0 < 1 + p.poisson_ratio := by linarith
     have hn0 : 1 + p.poisson_ratio ≠ 0 := ne_of_gt hn
-    have e1 : 3 * (p.youngs_mod * p.poisson_ratio / ((1 + p.poisson_ratio) * (1 - 2 * p.poisson_ratio)))
-          + 2 * (1 / 2 * p.youngs_mod / (1 + p.poisson_ratio))
-        = p.youngs_mod / (1 - 2 * p.poisson_ratio) := by fsimp; ring1
-    have e2 : p.youngs_mod * p.poisson_ratio / ((1 + p.poisson_ratio) * (1 - 2 * p.poisson_ratio))
-          + 1 / 2 * p.youngs_mod / (1 + p.poisson_ratio)
-        = p.youngs_mod / (2 * ((1 + p.poisson_ratio) * (1 - 2 * p.poisson_ratio))) := by fsimp; ring1
-    have h2 : p.youngs_mod * p.poisson_ratio / ((1 + p.poisson_ratio) * (1 - 2 * p.poisson_ratio))
-          + 1 / 2 * p.youngs_mod / (1 + p.poisson_ratio) ≠ 0 := by
-      rw [e2]; positivity
-    have h3 : 0 < 3 * (p.youngs_mod * p.poisson_ratio / ((1 + p.poisson_ratio) * (1 - 2 * p.poisson_ratio)))
-          + 2 * (1 / 2 * p.youngs_mod / (1 + p.poisson_ratio)) := by
-      rw [e1]; positivity
-    have h4 : 0 < 1 / 2 * p.youngs_mod / (1 + p.poisson_ratio) := by positivity
-    refine ⟨IsoMaterial.of_mul ?_ ?_ ?_ ?_ ?_ ?_, ?_, ?_⟩ <;> first | trivial | assumption | linarith | ring1 | (fsimp <;> ring1))
+    -- G > 0 by `positivity`; 3λ + 2G = E/(1 - 2ν) > 0 through the closed form, whatever λ and G look like
+    refine ⟨IsoMaterial.of_mul ?_ ?_ ?_ ?_ ?_ ?_, ?_, ?_⟩ <;>
+      first | trivial | assumption | linarith | positivity | ring1 | (fsimp <;> ring1)
+            | epv_deton_pos_via (p.youngs_mod / (1 - 2 * p.poisson_ratio)))
 
 theorem modEK_ok (p : BlakeModEK.P) (h : BlakeModEK.outcome p = .ok) :
     IsoMaterial (BlakeModEK.lame_mod p) (BlakeModEK.shear_mod p) (BlakeModEK.youngs_mod p) (BlakeModEK.poisson_ratio p) (BlakeModEK.bulk_mod p) (BlakeModEK.long_mod p)
@@ -331,19 +330,10 @@ theorem modNuM_ok (p : BlakeModNuM.P) (h : BlakeModNuM.outcome p = .ok) :
     have hn : 0 < 1 + p.poisson_ratio := by linarith
     have hm : 0 < 1 - p.poisson_ratio := by linarith
     have hm0 : 1 - p.poisson_ratio ≠ 0 := ne_of_gt hm
-    have e1 : 3 * (p.long_mod * p.poisson_ratio / (1 - p.poisson_ratio))
-          + 2 * (1 / 2 * p.long_mod * (1 - 2 * p.poisson_ratio) / (1 - p.poisson_ratio))
-        = p.long_mod * (1 + p.poisson_ratio) / (1 - p.poisson_ratio) := by fsimp; ring1
-    have e2 : p.long_mod * p.poisson_ratio / (1 - p.poisson_ratio)
-          + 1 / 2 * p.long_mod * (1 - 2 * p.poisson_ratio) / (1 - p.poisson_ratio)
-        = p.long_mod / (2 * (1 - p.poisson_ratio)) := by fsimp; ring1
-    have h2 : p.long_mod * p.poisson_ratio / (1 - p.poisson_ratio)
-          + 1 / 2 * p.long_mod * (1 - 2 * p.poisson_ratio) / (1 - p.poisson_ratio) ≠ 0 := by
-      rw [e2]; positivity
-    have h3 : 0 < 3 * (p.long_mod * p.poisson_ratio / (1 - p.poisson_ratio))
-          + 2 * (1 / 2 * p.long_mod * (1 - 2 * p.poisson_ratio) / (1 - p.poisson_ratio)) := by
-      rw [e1]; positivity
-    refine ⟨IsoMaterial.of_mul ?_ ?_ ?_ ?_ ?_ ?_, ?_, ?_⟩ <;> first | trivial | assumption | linarith | ring1 | (fsimp <;> ring1))
+    -- G > 0 by `positivity`; 3λ + 2G = M(1 + ν)/(1 - ν) > 0 through the closed form
+    refine ⟨IsoMaterial.of_mul ?_ ?_ ?_ ?_ ?_ ?_, ?_, ?_⟩ <;>
+      first | trivial | assumption | linarith | positivity | ring1 | (fsimp <;> ring1)
+            | epv_deton_pos_via (p.long_mod * (1 + p.poisson_ratio) / (1 - p.poisson_ratio)))
 
 theorem modKM_ok (p : BlakeModKM.P) (h : BlakeModKM.outcome p = .ok) :
     IsoMaterial (BlakeModKM.lame_mod p) (BlakeModKM.shear_mod p) (BlakeModKM.youngs_mod p) (BlakeModKM.poisson_ratio p) (BlakeModKM.bulk_mod p) (BlakeModKM.long_mod p)
